@@ -68,6 +68,11 @@ func genC07(r *h.Rng, tier string, idx int) *h.Plan {
 		fields, _ := expiryFields(r, at, delta)
 		if id == "k1" || r.P(1, 6) {
 			fields = map[string]interface{}{} // control: never expires
+			if r.Bool() {
+				// the documented spelling of "no expiration" (what a stored
+				// non-expiring rule serialises to)
+				fields = map[string]interface{}{"expires": float64(0)}
+			}
 		} else if delta > 0 {
 			exps = append(exps, (at + delta).Truncate(time.Second))
 		}
